@@ -4,7 +4,8 @@ of the other properties listed in its meta, if any), record the verdict, undo th
 import json, os, re, subprocess, sys, time
 ROOT = os.path.dirname(os.path.dirname(os.path.abspath(__file__)))
 only = sys.argv[1:]
-res = {}
+RES = os.path.join(ROOT, "seeded", "RESULTS.json")
+res = json.load(open(RES)) if only and os.path.exists(RES) else {}
 for sid in sorted(os.listdir(os.path.join(ROOT, "seeded"))):
     d = os.path.join(ROOT, "seeded", sid)
     patch = os.path.join(d, "patch.diff")
@@ -27,6 +28,6 @@ for sid in sorted(os.listdir(os.path.join(ROOT, "seeded"))):
     finally:
         subprocess.run(["git", "-C", "/repo", "checkout", "--", "."])
         subprocess.run(["git", "-C", "/repo", "clean", "-fdq", "--", "ariadne_codegen"])
-json.dump(res, open(os.path.join(ROOT, "seeded", "RESULTS.json"), "w"), indent=1)
+json.dump(res, open(RES, "w"), indent=1, sort_keys=True)
 det = sum(1 for v in res.values() if v.get("exit") == 1)
 print(f"detected {det} of {len(res)}")
